@@ -197,6 +197,7 @@ class SimFS:
         self.seq = 0
         self.open_objs: list = []
         self.passthrough: list = []
+        self._inos: dict = {}        # id(file object) -> inode number (hard links share one)
         self.links: dict = {}        # symbolic links: path -> target path (both normalised)
         self.fifos: set = set()      # paths that are named pipes / process substitutions (readable, not regular)
         self.mtimes: dict = {}       # path -> logical modification time
@@ -515,8 +516,9 @@ class SimFS:
         if p in self.files:
             mode = 0o444 if p in self.ro else 0o644
             mt = int(self.mtimes.get(p, 1000.0))
-            ino = sum(p.encode()) & 0xFFFF
-            return os.stat_result((_stat.S_IFREG | mode, ino, 1, 1, 0, 0, len(self.files[p]), mt, mt, mt))
+            ino = self._inos.setdefault(id(self.files[p]), 1000 + len(self._inos))
+            nlink = sum(1 for o in self.files.values() if o is self.files[p])
+            return os.stat_result((_stat.S_IFREG | mode, ino, 1, nlink, 0, 0, len(self.files[p]), mt, mt, mt))
         raise FileNotFoundError(_errno.ENOENT, os.strerror(_errno.ENOENT), p)
 
     def os_stat(self, path, *a, **kw):
@@ -531,6 +533,123 @@ class SimFS:
         if p in self.links:
             return os.stat_result((_stat.S_IFLNK | 0o777, sum(p.encode()) & 0xFFFF, 1, 1, 0, 0, len(self.links[p]), 0, 0, 0))
         return self._stat_result(p)
+
+    def os_link(self, src, dst, *a, **kw):
+        s_, d_ = self.norm(src), self.norm(dst)
+        f = self.fault("rename", self.role_of(d_), d_, 0)
+        if f is not None:
+            raise _oserror(f["kind"], d_)
+        if s_ not in self.files:
+            raise FileNotFoundError(_errno.ENOENT, os.strerror(_errno.ENOENT), os.fspath(src))
+        if d_ in self.files or d_ in self.dirs or d_ in self.links:
+            raise FileExistsError(_errno.EEXIST, os.strerror(_errno.EEXIST), os.fspath(dst))
+        if posixpath.dirname(d_) not in self.dirs:
+            raise FileNotFoundError(_errno.ENOENT, os.strerror(_errno.ENOENT), os.fspath(dst))
+        if posixpath.dirname(d_) in self.ro:
+            raise PermissionError(_errno.EACCES, os.strerror(_errno.EACCES), os.fspath(dst))
+        self.files[d_] = self.files[s_]      # the same file object: a hard link
+        self.mutation("link", self.role_of(d_), d_)
+        self.record("link", self.role_of(d_), d_, s_, "ok")
+
+    def os_symlink(self, src, dst, *a, **kw):
+        d_ = self.norm(dst)
+        if d_ in self.files or d_ in self.dirs or d_ in self.links:
+            raise FileExistsError(_errno.EEXIST, os.strerror(_errno.EEXIST), os.fspath(dst))
+        if posixpath.dirname(d_) not in self.dirs:
+            raise FileNotFoundError(_errno.ENOENT, os.strerror(_errno.ENOENT), os.fspath(dst))
+        if posixpath.dirname(d_) in self.ro:
+            raise PermissionError(_errno.EACCES, os.strerror(_errno.EACCES), os.fspath(dst))
+        target = os.fspath(src)
+        self.links[d_] = self.norm(target if target.startswith("/") else posixpath.join(posixpath.dirname(d_), target))
+        self.mutation("symlink", self.role_of(d_), d_)
+
+    def os_rmdir(self, path, *a, **kw):
+        p = self.norm(path)
+        if p not in self.dirs:
+            raise FileNotFoundError(_errno.ENOENT, os.strerror(_errno.ENOENT), os.fspath(path))
+        if any(posixpath.dirname(q) == p for q in list(self.files) + list(self.dirs) + list(self.links) if q != p):
+            raise OSError(_errno.ENOTEMPTY, os.strerror(_errno.ENOTEMPTY), os.fspath(path))
+        if posixpath.dirname(p) in self.ro:
+            raise PermissionError(_errno.EACCES, os.strerror(_errno.EACCES), os.fspath(path))
+        self.dirs.discard(p)
+        self.mutation("rmdir", self.role_of(p), p)
+
+    def os_truncate(self, path, length, *a, **kw):
+        p = self.resolve(self.norm(path))
+        if p not in self.files:
+            raise FileNotFoundError(_errno.ENOENT, os.strerror(_errno.ENOENT), os.fspath(path))
+        if p in self.ro:
+            raise PermissionError(_errno.EACCES, os.strerror(_errno.EACCES), os.fspath(path))
+        self.mutation("truncate", self.role_of(p), p)
+        d = self.files[p]
+        if length < len(d):
+            del d[length:]
+        else:
+            d.extend(b"\0" * (length - len(d)))
+
+    def os_dup(self, fd, *a, **kw):
+        raw = self.fds[fd]
+        nfd = self.next_fd
+        self.next_fd += 1
+        self.fds[nfd] = raw
+        return nfd
+
+    def os_scandir(self, path="."):
+        fs = self
+        p = self.norm(path)
+        if p not in self.dirs:
+            raise FileNotFoundError(_errno.ENOENT, os.strerror(_errno.ENOENT), os.fspath(path))
+        base = os.fspath(path)
+
+        class Entry:
+            def __init__(self, name):
+                self.name = name
+                self.path = posixpath.join(base, name)
+                self._p = posixpath.join(p, name)
+
+            def is_symlink(self):
+                return self._p in fs.links
+
+            def is_dir(self, *, follow_symlinks=True):
+                q = fs.resolve(self._p) if follow_symlinks else self._p
+                return q in fs.dirs
+
+            def is_file(self, *, follow_symlinks=True):
+                q = fs.resolve(self._p) if follow_symlinks else self._p
+                return q in fs.files and q not in fs.fifos
+
+            def stat(self, *, follow_symlinks=True):
+                return fs.os_stat(self._p) if follow_symlinks else fs.os_lstat(self._p)
+
+            def inode(self):
+                return self.stat(follow_symlinks=False).st_ino
+
+            def __fspath__(self):
+                return self.path
+
+            def __repr__(self):
+                return "<SimDirEntry %r>" % self.name
+
+        class Scan:
+            def __init__(self):
+                self._it = iter([Entry(n) for n in fs.os_listdir(path)])
+
+            def __iter__(self):
+                return self
+
+            def __next__(self):
+                return next(self._it)
+
+            def __enter__(self):
+                return self
+
+            def __exit__(self, *a):
+                return False
+
+            def close(self):
+                pass
+
+        return Scan()
 
     def os_access(self, path, mode, *a, **kw):
         import os as _os
@@ -568,7 +687,7 @@ class SimFS:
         if p not in self.dirs:
             raise FileNotFoundError(_errno.ENOENT, os.strerror(_errno.ENOENT), os.fspath(path))
         out = set()
-        for q in list(self.files) + list(self.dirs):
+        for q in list(self.files) + list(self.dirs) + list(self.links):
             if q != p and posixpath.dirname(q) == p:
                 out.add(posixpath.basename(q))
         return sorted(out)
@@ -739,6 +858,8 @@ class Patches:
                 return real(fd, *args, **kw)
             return f
 
+        wrapfd_early = wrapfd
+
         self._set(_os, "isatty", wrapfd(_os.isatty, lambda fd: fs.fds[fd].isatty()))
         def guarded_os_open(path, flags, *a, **kw):
             if fs.is_sim(path):
@@ -774,6 +895,51 @@ class Patches:
         self._set(_os, "lstat", wrap1(_os.lstat, fs.os_lstat))
         self._set(_os, "readlink", wrap1(_os.readlink, fs.os_readlink))
         self._set(_os, "access", wrap1(_os.access, fs.os_access))
+        self._set(_os, "link", wrap2(_os.link, fs.os_link))
+        self._set(_os, "symlink", lambda src, dst, *a, **k: fs.os_symlink(src, dst) if fs.is_sim(dst) else _real_symlink(src, dst, *a, **k))
+        _real_symlink = self.saved[-1][2]
+        self._set(_os, "rmdir", wrap1(_os.rmdir, fs.os_rmdir))
+        self._set(_os, "truncate", wrap1(_os.truncate, fs.os_truncate))
+        self._set(_os, "dup", wrapfd_early(_os.dup, fs.os_dup))
+        self._set(_os, "scandir", lambda path=".": fs.os_scandir(path) if (not isinstance(path, int) and fs.is_sim(path)) else _real_scandir(path))
+        _real_scandir = self.saved[-1][2]
+        for xname in ("listxattr", "getxattr", "setxattr", "removexattr"):
+            if hasattr(_os, xname):
+                real_x = getattr(_os, xname)
+                if xname == "listxattr":
+                    self._set(_os, xname, (lambda real: lambda path=None, *a, **k: [] if (path is None or isinstance(path, int) and path in fs.fds or not isinstance(path, int) and fs.is_sim(path)) else real(path, *a, **k))(real_x))
+                elif xname == "getxattr":
+                    self._set(_os, xname, (lambda real: lambda path, attr, *a, **k: (_ for _ in ()).throw(OSError(_errno.ENODATA, "No data available")) if (isinstance(path, int) and path in fs.fds or not isinstance(path, int) and fs.is_sim(path)) else real(path, attr, *a, **k))(real_x))
+                else:
+                    self._set(_os, xname, (lambda real: lambda path, *a, **k: None if (isinstance(path, int) and path in fs.fds or not isinstance(path, int) and fs.is_sim(path)) else real(path, *a, **k))(real_x))
+        self._set(_os, "chown", wrap1(_os.chown, lambda path, *a, **kw: None))
+        try:
+            import shutil as _shutil
+
+            # path-based rmtree / copy: the descriptor-based variants use dir_fd, which is not modelled
+            self._set(_shutil, "_use_fd_functions", False)
+            if hasattr(_shutil.rmtree, "avoids_symlink_attacks"):
+                pass
+        except ImportError:
+            pass
+
+        def sim_FileIO(file, mode="r", closefd=True, opener=None):
+            if isinstance(file, int):
+                if file in fs.fds:
+                    raw = fs.fds[file]
+                    if closefd:
+                        raw._fd_owned = file
+                    return raw
+                return real_FileIO(file, mode, closefd, opener)
+            if fs.is_sim(file):
+                return fs.open(file, mode if "b" in mode else mode + "b", buffering=0, opener=opener)
+            if set(mode) & set("wax+"):
+                fs.passthrough.append(repr(file))
+                raise PermissionError(_errno.EACCES, "write to a real path blocked by the simulator", _os.fspath(file))
+            return real_FileIO(file, mode, closefd, opener)
+
+        real_FileIO = io.FileIO
+        self._set(io, "FileIO", sim_FileIO)
         self._set(_os.path, "islink", wrap1(_os.path.islink, lambda p: fs.norm(p) in fs.links))
         self._set(_os, "fstat", wrapfd(_os.fstat, fs.os_fstat))
         self._set(_os, "mkdir", wrap1(_os.mkdir, fs.os_mkdir))
